@@ -18,12 +18,19 @@ from pennylane.queuing import AnnotatedQueue, QueuingManager
 UK = ["adj", "ctrl", "pow", "sprod"]
 PK = ["prod", "sum"]
 MK = ["expval", "var", "sample", "counts"]
+EK = ["epow", "eadj", "esprod", "simplify"]          # eager wrappers (node E)
+ZS = [2, 4, 0, 1, 3, -1, 0.5, 5]                     # exponents of pow(.., lazy=False), chosen by place
 MAXREF = 2
 CARRY0 = 100
 
 
 class VerifRaise(Exception):
     """The exception raised by `raise` statements of a program."""
+
+
+def caught(e):
+    """Exceptions a program's try/except handles: its own raise, and a QuantumTape rejected when it is built at exit."""
+    return isinstance(e, VerifRaise) or (isinstance(e, ValueError) and "must occur prior to measurements" in str(e))
 
 
 def pick(kinds, p, flav):
@@ -40,12 +47,12 @@ def unlabel(w):
     return [int(x) for x in a.split(".") if x], [int(x) for x in b.split(",") if x]
 
 
-def gate(p, iv):
+def gate(p, iv, k=None):
     lab = label(p, iv)
-    k = sum(p) % 4
+    k = sum(p) % 5 if k is None else k
     if k == 3:
         return qp.IsingXX(0.5, wires=[lab, lab + "'"])
-    return (qp.S, qp.T, qp.SX)[k](wires=lab)
+    return (qp.S, qp.T, qp.SX, None, qp.X)[k](wires=lab)
 
 
 def _names(o):
@@ -63,6 +70,11 @@ def _flat(k, ts):
 def term(o):
     """Structural description of a recorded object, in the vocabulary of the specification."""
     n = _names(o)
+    if "QuantumScript" in n:
+        return {"k": "tape"}
+    if type(o).__name__ in ("S", "T", "SX", "IsingXX", "PauliX", "X") and str(o.wires[0]).startswith("p"):
+        p, iv = unlabel(o.wires[0])
+        return {"k": "g", "p": p, "iv": iv}
     if "Conditional" in n:
         return {"k": "cond+" if o.meas_val.processing_fn(1) else "cond-", "a": [term(o.base)]}
     if n & {"MidMeasure", "MidMeasureMP"}:
@@ -94,9 +106,23 @@ def term(o):
         return {"k": "?" + type(o).__name__}
 
 
+def tmatch(got, exp):
+    """Structural agreement; the result of an eager wrapper may be any operator."""
+    if exp["k"] == "eager":
+        return True
+    if exp["k"] in ("prod", "sum") and any(x["k"] == "eager" for x in exp["a"]):
+        return got.get("k") == exp["k"]          # the result may itself be a product / sum that gets spliced in
+    if got.get("k") != exp["k"] or got.get("p") != exp.get("p") or got.get("iv") != exp.get("iv"):
+        return False
+    ga, ea = got.get("a", []), exp.get("a", [])
+    return len(ga) == len(ea) and all(tmatch(x, y) for x, y in zip(ga, ea))
+
+
 def expand(objs, i):
     """Expected nested term of object i from the flat table emitted by TLC."""
     t = objs[i - 1]
+    if t["k"] in ("tape", "eager"):
+        return {"k": t["k"]}
     if t["k"] in ("g", "mid"):
         return {"k": t["k"], "p": list(t["p"]), "iv": list(t["iv"])}
     if t["k"] in ("prod", "sum"):
@@ -110,6 +136,7 @@ class Runner:
         self.steps, self.objs, self.idmap = [], [], {}
         self.queues, self.qmap = [], {}
         self.recent = []
+        self.info = {}
         self.fuel = 2000
 
     # ------------------------------------------------------------------ observation
@@ -150,7 +177,7 @@ class Runner:
     def ev(self, e, p, iv):
         t = e["t"]
         if t == "G":
-            o = gate(p, iv)
+            o = gate(p, iv, e["n"][0] if e["n"] else None)      # n = <<class>> pins the gate class (explicit families)
             self.log("g", self.new(o))
             return o
         if t == "R":
@@ -168,6 +195,21 @@ class Runner:
             else:
                 w = 2.0 * a if alt and "SProd" not in _names(a) else qp.s_prod(2.0, a)
             self.log("u", self.new(w))
+            return w
+        if t == "E":
+            a = self.ev(e["c"][0][0], p + [1], iv)
+            k = EK[e["n"][0]] if e["n"] else pick(EK, p, self.flav)   # n = <<kind, exponent>> pins both
+            z = ZS[e["n"][1]] if e["n"] else ZS[(sum(p) + self.flav) % len(ZS)]
+            if k == "epow":
+                w = qp.pow(a, z, lazy=False)
+            elif k == "eadj":
+                w = qp.adjoint(a, lazy=False)
+            elif k == "esprod":
+                w = qp.s_prod(2.0, a, lazy=False)
+            else:
+                w = qp.simplify(a)
+            self.info[len(self.steps)] = (k + (f"[z={z}]" if k == "epow" else ""), type(a).__name__)
+            self.log("e", self.new(w))
             return w
         if t == "P":
             a = self.ev(e["c"][0][0], p + [1], iv)
@@ -233,6 +275,14 @@ class Runner:
                     self.block(s["c"][0], p + [1], iv)
             finally:
                 self.log("exit")
+        elif t == "tape":
+            tp = qp.tape.QuantumTape()
+            try:
+                with tp:                                  # __exit__ builds the tape and may reject it
+                    self.log("tenter", self.new(tp))
+                    self.block(s["c"][0], p + [1], iv)
+            finally:
+                self.log("texit")
         elif t == "stop":
             try:
                 with QueuingManager.stop_recording():
@@ -244,7 +294,9 @@ class Runner:
             r = 0
             try:
                 self.block(s["c"][0], p + [1], iv)
-            except VerifRaise:
+            except Exception as e:            # pylint: disable=broad-except
+                if not caught(e):
+                    raise
                 r = 1
             self.log("tryend", 0, r)
         elif t == "for":
@@ -311,7 +363,9 @@ class Runner:
             self.seen()
             try:
                 self.block(self.prog, [], [])
-            except VerifRaise:
+            except Exception as e:            # pylint: disable=broad-except
+                if not caught(e):
+                    raise
                 r = 1
             self.log("tryend", 0, r)
         tape, crash = None, None
@@ -327,7 +381,7 @@ class Runner:
                 QueuingManager._active_contexts = []
         if crash is None:
             self.log("fin")
-        return {"steps": self.steps, "tape": tape, "terms": [term(o) for o in self.objs], "leaked_before": leaked, "crash": crash}
+        return {"steps": self.steps, "tape": tape, "terms": [term(o) for o in self.objs], "leaked_before": leaked, "crash": crash, "info": self.info}
 
 
 def first_diff(got, exp):
@@ -345,11 +399,17 @@ def first_diff(got, exp):
             return f"action:{e['a']}->{g['a']}", f"step {i}: expected {e}, got {g}"
         for fld, what in (("st", "context-stack"), ("qs", "queues"), ("n", "object"), ("r", "value")):
             if g[fld] != e[fld]:
-                return f"{e['a']}:{what}", f"step {i} ({e['a']}): {what} expected {e[fld]}, got {g[fld]}; expected step {e}, got {g}"
+                key = f"{e['a']}:{what}"
+                if e["a"] == "e" and i in got.get("info", {}):
+                    kind, base = got["info"][i]
+                    key += f":{kind}"
+                    if fld == "qs" and g["qs"] == [[x for x in q if x != e["n"]] for q in e["qs"]]:
+                        key = f"eager-result-not-recorded:{kind}:{base}"     # operand removed, result never queued
+                return key, f"step {i} ({e['a']}): {what} expected {e[fld]}, got {g[fld]}; expected step {e}, got {g}"
     if got["tape"] != exp["tape"]:
         return "final-tape", f"expected tape {exp['tape']}, got {got['tape']}"
     for i, t in enumerate(got["terms"], 1):
-        if i <= len(exp["objs"]) and t != expand(exp["objs"], i):
+        if i <= len(exp["objs"]) and not tmatch(t, expand(exp["objs"], i)):
             return f"term:{exp['objs'][i - 1]['k']}", f"object {i}: expected {expand(exp['objs'], i)}, got {t}"
     return None
 
@@ -377,14 +437,14 @@ def replay(prog, flav, variants):
 def rand_expr(rng, kinds, depth):
     opts = [k for k in ("G", "R") if k in kinds]
     if depth > 0:
-        opts += [k for k in ("U", "U", "P") if k in kinds]
+        opts += [k for k in ("U", "U", "P", "E") if k in kinds]
     t = rng.choice(opts)
     if t == "G":
         return {"t": "G", "n": [], "c": []}
     if t == "R":
         return {"t": "R", "n": [rng.randint(1, MAXREF)], "c": []}
-    if t == "U":
-        return {"t": "U", "n": [], "c": [[rand_expr(rng, kinds, depth - 1)]]}
+    if t in ("U", "E"):
+        return {"t": t, "n": [], "c": [[rand_expr(rng, kinds, depth - 1)]]}
     return {"t": "P", "n": [], "c": [[rand_expr(rng, kinds, depth - 1)], [rand_expr(rng, kinds, depth - 1)]]}
 
 
@@ -401,8 +461,8 @@ def rand_block(rng, kinds, depth, budget, lift=False, top=False):
 
 def rand_stmt(rng, kinds, depth, budget, lift):
     simple = [k for k in ("do", "do", "do", "meas", "apply", "raise") if k in kinds and not (lift and k == "meas")]
-    comp = [k for k in ("ctx", "stop", "try", "for", "while", "cond", "mcond", "adjfn", "ctrlfn") if k in kinds
-            and not (lift and k == "mcond")]
+    comp = [k for k in ("ctx", "stop", "try", "tape", "for", "while", "cond", "mcond", "adjfn", "ctrlfn") if k in kinds
+            and not (lift and k in ("mcond", "tape"))]
     t = rng.choice(simple + (comp * 2 if depth > 0 and budget > 1 else []))
     nd = lambda t, n, c: {"t": t, "n": n, "c": c}
     sub = lambda lf=lift: rand_block(rng, kinds, depth - 1, budget - 1, lf)
@@ -414,7 +474,7 @@ def rand_stmt(rng, kinds, depth, budget, lift):
         return nd("apply", [rng.randint(1, MAXREF)], [])
     if t == "raise":
         return nd("raise", [], [])
-    if t in ("ctx", "stop", "try"):
+    if t in ("ctx", "stop", "try", "tape"):
         return nd(t, [], [sub()])
     if t == "for":
         st = rng.choice([-3, -2, -1, 1, 1, 2, 3])
@@ -464,6 +524,8 @@ class LowLevel:
         o_app, o_rem = QueuingManager.__dict__["append"], QueuingManager.__dict__["remove"]
         o_ent, o_exi = AnnotatedQueue.__enter__, AnnotatedQueue.__exit__
         o_stop = QueuingManager.__dict__["stop_recording"]
+        QT = qp.tape.QuantumTape
+        o_tent, o_texi = QT.__enter__, QT.__exit__
 
         def app(cls, obj, **kw):
             o_app.__func__(cls, obj, **kw)
@@ -482,6 +544,20 @@ class LowLevel:
         def exi(self_, et, ev_, tb):
             r = o_exi(self_, et, ev_, tb)
             ll.ev("exit", ll.qid(self_), et is not None)
+            return r
+
+        def tent(self_):
+            r = o_tent(self_)
+            ll.ev("enter", ll.qid(self_))
+            return r
+
+        def texi(self_, et, ev_, tb):
+            failed = True
+            try:
+                r = o_texi(self_, et, ev_, tb)
+                failed = False
+            finally:
+                ll.ev("exit", ll.qid(self_), et is not None or failed)
             return r
 
         @contextlib.contextmanager
@@ -506,11 +582,13 @@ class LowLevel:
         QueuingManager.append, QueuingManager.remove = classmethod(app), classmethod(rem)
         QueuingManager.stop_recording = classmethod(stop)
         AnnotatedQueue.__enter__, AnnotatedQueue.__exit__ = ent, exi
+        QT.__enter__, QT.__exit__ = tent, texi
         try:
             yield self
         finally:
             QueuingManager.append, QueuingManager.remove, QueuingManager.stop_recording = o_app, o_rem, o_stop
             AnnotatedQueue.__enter__, AnnotatedQueue.__exit__ = o_ent, o_exi
+            QT.__enter__, QT.__exit__ = o_tent, o_texi
 
 
 # ---------------------------------------------------------------------- shared driver (C41, C43)
@@ -519,6 +597,20 @@ INVARIANTS = ["NoDup", "ProgramOrder", "RecordedExactly", "NothingUnderStop", "C
 
 def N(t, n=(), c=()):
     return {"t": t, "n": list(n), "c": list(c)}
+
+
+def _bad_order(behaviour, step, i):
+    """the context left at step i holds an operator after a measurement"""
+    prev = behaviour["steps"][i - 1]["st"] if i else []
+    if not prev:
+        return False
+    seen_m = False
+    for o in step["qs"][prev[-1] - 1]:
+        m = behaviour["objs"][o - 1]["k"] in ("expval", "var", "sample", "counts", "probs")
+        if seen_m and not m:
+            return True
+        seen_m = seen_m or m
+    return False
 
 
 def features(prog, behaviour):
@@ -530,7 +622,15 @@ def features(prog, behaviour):
         f.add("nested-contexts")
     if "stopenter" in acts:
         f.add("stop_recording")
-    if any(s["a"] in ("u", "p", "meas") and behaviour["objs"][s["n"] - 1]["a"] for s in behaviour["steps"]):
+    if "tenter" in acts:
+        f.add("tape-context")
+    if "e" in acts:
+        f.add("eager-wrapper")
+    for i, s in enumerate(behaviour["steps"]):           # a tape rejected at exit: the next observable action is the except
+        if s["a"] == "texit" and i + 1 < len(behaviour["steps"]) and behaviour["steps"][i + 1]["a"] in ("tryend", "exit", "stopexit", "texit") \
+                and _bad_order(behaviour, s, i):
+            f.add("tape-rejected-at-exit")
+    if any(s["a"] in ("u", "p", "e", "meas") and behaviour["objs"][s["n"] - 1]["a"] for s in behaviour["steps"]):
         f.add("operand-consumed")
     if "apply" in acts:
         f.add("apply")
@@ -544,7 +644,7 @@ def features(prog, behaviour):
             f.add(k)
     # an exception that unwinds at least one context / stop_recording block
     for i, s in enumerate(behaviour["steps"]):
-        if s["a"] == "tryend" and s["r"] == 1 and i > 0 and behaviour["steps"][i - 1]["a"] in ("exit", "stopexit"):
+        if s["a"] == "tryend" and s["r"] == 1 and i > 0 and behaviour["steps"][i - 1]["a"] in ("exit", "stopexit", "texit"):
             f.add("exception-through-context")
     return f
 
